@@ -18,6 +18,9 @@ type Explorer struct {
 	Shard, NShards int
 	// Stop is polled between executions; returning true ends the search early (capped).
 	Stop func() bool
+	// CheckRootOnAllShards: evaluate Check on the default schedule in every shard (oracles with process-wide
+	// side effects, such as the race detector's log, must see every execution of their own process).
+	CheckRootOnAllShards bool
 	// MaxExecutions caps the search (0 = none).
 	MaxExecutions int
 
@@ -61,6 +64,9 @@ func (e *Explorer) Run() {
 		e.NShards = 1
 	}
 	root := e.run(nil)
+	if (e.Shard == 0 || e.CheckRootOnAllShards) && e.Check != nil {
+		e.Check(root)
+	}
 	again := e.run(nil)
 	if len(root.Points) != len(again.Points) {
 		e.Err = fmt.Errorf("nondeterministic harness: the default schedule has %d choice points, then %d", len(root.Points), len(again.Points))
@@ -71,9 +77,6 @@ func (e *Explorer) Run() {
 			e.Err = fmt.Errorf("nondeterministic harness: choice point %d differs between two runs of the default schedule (%q vs %q)", i, root.Points[i].Fprint, again.Points[i].Fprint)
 			return
 		}
-	}
-	if e.Shard == 0 && e.Check != nil {
-		e.Check(root)
 	}
 	k := 0
 	for i := 0; i < len(root.Points) && e.Err == nil; i++ {
